@@ -282,15 +282,32 @@ def _hex_loop_guard(call: ast.Call) -> bool:
     if len(call.args) != 2 or not (isinstance(call.args[1], ast.Constant) and call.args[1].value == 16):
         return False
     a0 = call.args[0]
-    if not (isinstance(a0, ast.Call) and isinstance(a0.func, ast.Attribute) and a0.func.attr == "prefix" and len(a0.args) == 1):
-        return False
-    n_text = unparse(a0.args[0])
     st = call
     while not isinstance(st, ast.stmt):
         st = parent(st)
     blk = _block_of(st)
     if blk is None:
         return False
+    if isinstance(a0, ast.Name):
+        # `digits = stream.prefix(N)` (never empty: the buffer ends with a NUL sentinel, which is not a hex digit),
+        # then `for d in digits: if d not in HEX: raise`, then `int(digits, 16)`
+        before = blk[: blk.index(st)]
+        defs = [p_ for p_ in before if isinstance(p_, ast.Assign) and len(p_.targets) == 1 and isinstance(p_.targets[0], ast.Name) and p_.targets[0].id == a0.id]
+        if len(defs) != 1 or not (isinstance(defs[0].value, ast.Call) and isinstance(defs[0].value.func, ast.Attribute) and defs[0].value.func.attr == "prefix"):
+            return False
+        for prev in before[before.index(defs[0]) + 1 :]:
+            if isinstance(prev, ast.For) and isinstance(prev.iter, ast.Name) and prev.iter.id == a0.id and isinstance(prev.target, ast.Name):
+                k = prev.target.id
+                for s in prev.body:
+                    if isinstance(s, ast.If) and any(isinstance(x, ast.Raise) for x in s.body):
+                        t = s.test
+                        if (isinstance(t, ast.Compare) and isinstance(t.ops[0], ast.NotIn) and isinstance(t.left, ast.Name) and t.left.id == k
+                                and bool(_str_constant(t.comparators[0])) and set(_str_constant(t.comparators[0])) <= HEX):
+                            return True
+        return False
+    if not (isinstance(a0, ast.Call) and isinstance(a0.func, ast.Attribute) and a0.func.attr == "prefix" and len(a0.args) == 1):
+        return False
+    n_text = unparse(a0.args[0])
     for prev in blk[: blk.index(st)]:
         if (
             isinstance(prev, ast.For)
@@ -318,6 +335,31 @@ def _hex_loop_guard(call: ast.Call) -> bool:
                     ):
                         return True
     return False
+
+
+def _validation_loop_for(st: ast.stmt, n_name: str) -> ast.For | None:
+    """The loop in the block of ``st`` that raises unless each of the next ``n_name`` characters is in a constant set:
+    ``for k in range(N): if stream.peek(k) not in SET: raise`` or ``digits = stream.prefix(N)`` ... ``for d in digits: if d not in SET: raise``."""
+    blk = _block_of(st)
+    if blk is None:
+        return None
+    holders = {
+        p_.targets[0].id
+        for p_ in blk
+        if isinstance(p_, ast.Assign) and len(p_.targets) == 1 and isinstance(p_.targets[0], ast.Name) and isinstance(p_.value, ast.Call)
+        and isinstance(p_.value.func, ast.Attribute) and p_.value.func.attr == "prefix" and len(p_.value.args) == 1 and unparse(p_.value.args[0]) == n_name
+    }
+    for lp in blk:
+        if not (isinstance(lp, ast.For) and isinstance(lp.target, ast.Name)):
+            continue
+        over_range = isinstance(lp.iter, ast.Call) and dotted(lp.iter.func) == "range" and len(lp.iter.args) == 1 and unparse(lp.iter.args[0]) == n_name
+        over_holder = isinstance(lp.iter, ast.Name) and lp.iter.id in holders
+        if not (over_range or over_holder):
+            continue
+        for s_ in lp.body:
+            if isinstance(s_, ast.If) and any(isinstance(x, ast.Raise) for x in s_.body) and isinstance(s_.test, ast.Compare) and isinstance(s_.test.ops[0], ast.NotIn) and _str_constant(s_.test.comparators[0]):
+                return lp
+    return None
 
 
 def _block_of(st: ast.stmt) -> list | None:
@@ -782,6 +824,52 @@ def _sep_present(call: ast.Call, sep: ast.expr | None, model: _SeqLen) -> bool:
                             for tt, pol in _atomic(t_, True):
                                 if pol and isinstance(tt, ast.Compare) and len(tt.ops) == 1 and isinstance(tt.ops[0], ast.In) and isinstance(tt.left, ast.Constant) and tt.left.value == sep.value and isinstance(tt.comparators[0], ast.Name) and tt.comparators[0].id == v:
                                     return True
+    # ... or over a list / dict of lists that is filled element by element, each element under `SEP in x`
+    # (`d.setdefault(k, []).append(key)` under `if SEP in key`; read back through chain.from_iterable(d.values()))
+    if isinstance(recv, ast.Name) and not model.fi.is_lambda and model.cfg is not None:
+        for lp in model.fi.local_nodes():
+            if not (isinstance(lp, ast.For) and isinstance(lp.target, ast.Name) and lp.target.id == recv.id and any(call is x for b in lp.body for x in ast.walk(b))):
+                continue
+            it = lp.iter
+            coll = None
+            if isinstance(it, ast.Call) and (dotted(it.func) or "").split(".")[-1] in ("from_iterable", "chain") and len(it.args) == 1:
+                a0 = it.args[0].value if isinstance(it.args[0], ast.Starred) else it.args[0]
+                if isinstance(a0, ast.Call) and isinstance(a0.func, ast.Attribute) and a0.func.attr == "values" and isinstance(a0.func.value, ast.Name):
+                    coll = a0.func.value.id
+            if coll is None:
+                continue
+            if any(isinstance(x, ast.Name) and x.id == recv.id and isinstance(x.ctx, ast.Store) and x is not lp.target for x in ast.walk(lp)):
+                continue
+            inits = [n for n in model.fi.local_nodes() if isinstance(n, (ast.Assign, ast.AnnAssign)) and isinstance(getattr(n, "target", None) or n.targets[0], ast.Name) and (getattr(n, "target", None) or n.targets[0]).id == coll]
+            if len(inits) != 1 or not (isinstance(inits[0].value, ast.Dict) and not inits[0].value.keys or (isinstance(inits[0].value, ast.Call) and dotted(inits[0].value.func) in ("dict", "defaultdict", "collections.defaultdict") )):
+                continue
+            ok_all, n_add = True, 0
+            for n in model.fi.local_nodes():
+                # every way an element gets into the lists of `coll`
+                if isinstance(n, ast.Call) and isinstance(n.func, ast.Attribute) and n.func.attr in ("append", "insert", "extend", "add", "update"):
+                    base_ = n.func.value
+                    into = (
+                        (isinstance(base_, ast.Call) and isinstance(base_.func, ast.Attribute) and base_.func.attr in ("setdefault", "get") and isinstance(base_.func.value, ast.Name) and base_.func.value.id == coll)
+                        or (isinstance(base_, ast.Subscript) and isinstance(base_.value, ast.Name) and base_.value.id == coll)
+                    )
+                    if not into:
+                        continue
+                    n_add += 1
+                    elem = n.args[-1] if n.args else None
+                    good = False
+                    if n.func.attr == "append" and isinstance(elem, ast.Name):
+                        try:
+                            fs = model.cfg.guards(model.cfg.stmt_of(n))
+                        except Exception:
+                            fs = []
+                        for tt, pol in fs:
+                            if pol and isinstance(tt, ast.Compare) and len(tt.ops) == 1 and isinstance(tt.ops[0], ast.In) and isinstance(tt.left, ast.Constant) and tt.left.value == sep.value and isinstance(tt.comparators[0], ast.Name) and tt.comparators[0].id == elem.id:
+                                good = True
+                    ok_all = ok_all and good
+                if isinstance(n, ast.Subscript) and isinstance(n.ctx, ast.Store) and isinstance(n.value, ast.Name) and n.value.id == coll:
+                    ok_all = False  # `coll[k] = <list>`: not modelled
+            if ok_all and n_add:
+                return True
     for test, pol in facts:
         if not (isinstance(test, ast.Compare) and len(test.ops) == 1 and isinstance(test.left, ast.Constant) and test.left.value == sep.value):
             continue
@@ -885,7 +973,7 @@ def _after_successful_relfn2path(call: ast.Call, arg: ast.expr, fi: FunctionInfo
                     out.append(t.left.id)
         return out
 
-    def after_success(st: ast.AST) -> bool:
+    def after_success(st: ast.AST, atext: str = atext) -> bool:
         for a in ancestors(st):
             if isinstance(a, (ast.FunctionDef, ast.Lambda)):
                 break
@@ -898,6 +986,33 @@ def _after_successful_relfn2path(call: ast.Call, arg: ast.expr, fi: FunctionInfo
                 if any(st is x or st in ast.walk(x) for x in a.body) and all(c.lineno < st.lineno for c in rcalls):
                     return True
         return False
+
+    def helper_success(e: ast.AST) -> bool:
+        """``self.H(<same text>)`` / ``H(<same text>)`` where H gives a non-None / non-False result only after
+        ``relfn2path(<its parameter>)`` completed normally inside H."""
+        if not (isinstance(e, ast.Call) and e.args):
+            return False
+        name = e.func.attr if isinstance(e.func, ast.Attribute) and isinstance(e.func.value, ast.Name) and e.func.value.id in ("self", "cls") else (e.func.id if isinstance(e.func, ast.Name) else None)
+        H = None
+        if name and fi.cls is not None and isinstance(e.func, ast.Attribute):
+            H = fi.cls.methods.get(name)
+        elif name:
+            H = fi.module.functions.get(name)
+        if H is None or H.is_lambda:
+            return False
+        pos = [x.arg for x in H.node.args.posonlyargs + H.node.args.args]
+        if H.cls is not None and "staticmethod" not in H.decorators():
+            pos = pos[1:]
+        idx = next((i for i, a_ in enumerate(e.args) if unparse(a_) == atext), None)
+        if idx is None or idx >= len(pos):
+            return False
+        ptext = pos[idx]
+        if any(isinstance(x, ast.Name) and x.id == ptext and isinstance(x.ctx, ast.Store) for x in H.local_nodes()):
+            return False
+        rets = [r for r in H.local_nodes() if isinstance(r, ast.Return)]
+        real = [r for r in rets if not (r.value is None or (isinstance(r.value, ast.Constant) and (r.value.value is None or r.value.value is False)))]
+        implicit_none_ok = True
+        return bool(real) and all(after_success(r, ptext) for r in real) and implicit_none_ok
 
     def implies_success(name: str, depth: int, seen: frozenset) -> bool:
         if depth > 4 or name in seen or name in fi.params:
@@ -913,8 +1028,8 @@ def _after_successful_relfn2path(call: ast.Call, arg: ast.expr, fi: FunctionInfo
         real = [(n, v) for n, v in defs if not (isinstance(v, ast.Constant) and (v.value is None or v.value is False))]
         if not real or any(v is None for _, v in real):
             return False
-        for n, _ in real:
-            if after_success(n):
+        for n, v_ in real:
+            if after_success(n) or helper_success(v_):
                 continue
             try:
                 ws = witnesses(cfg.stmt_of(n))
@@ -925,10 +1040,21 @@ def _after_successful_relfn2path(call: ast.Call, arg: ast.expr, fi: FunctionInfo
         return True
 
     try:
-        ws0 = witnesses(cfg.stmt_of(call))
+        st0 = cfg.stmt_of(call)
+        ws0 = witnesses(st0)
+        facts0 = cfg.guards(st0)
     except Exception:
         return False
-    return any(implies_success(w, 0, frozenset()) for w in ws0)
+    if any(implies_success(w, 0, frozenset()) for w in ws0):
+        return True
+    # the witness is the helper call itself: `if self.H(x) is None: ... return` before the construct
+    for t, pol in facts0:
+        if isinstance(t, ast.Compare) and len(t.ops) == 1 and isinstance(t.comparators[0], ast.Constant) and t.comparators[0].value is None and helper_success(t.left):
+            if (isinstance(t.ops[0], ast.IsNot) and pol) or (isinstance(t.ops[0], ast.Is) and not pol):
+                return True
+        if pol and helper_success(t):
+            return True
+    return False
 
 
 _FIELD_ENUMS = ("get_fields", "as_triple", "fields", "asdict")
@@ -1123,7 +1249,45 @@ class EscapeAnalysis:
         out = []
         for e in elts:
             d = dotted(e)
-            out.append(self.h.canonical(fi.module.resolve(d)) if d else B + "BaseException")
+            if not d:
+                out.append(B + "BaseException")
+                continue
+            expanded = self._exception_tuple_constant(d, fi)
+            if expanded is not None:
+                out.extend(expanded)
+            else:
+                out.append(self.h.canonical(fi.module.resolve(d)))
+        return out
+
+    def _exception_tuple_constant(self, d: str, fi: FunctionInfo, depth: int = 0) -> list[str] | None:
+        """``except NAME`` where NAME is a module-level constant bound to a tuple of exception classes (in this module,
+        or imported - also by a function-level import - from another module of the package)."""
+        if depth > 3:
+            return None
+        mod, name = fi.module, d
+        full = fi.module.resolve(d)
+        if full == d and "." not in d and not fi.is_lambda:
+            # a function-level `from pkg.mod import NAME`
+            for n in fi.local_nodes():
+                if isinstance(n, ast.ImportFrom) and n.module:
+                    for a in n.names:
+                        if (a.asname or a.name) == d:
+                            full = f"{n.module}.{a.name}"
+        if full != d and "." in full:
+            mname, _, name = full.rpartition(".")
+            m2 = self.c.modules.get(mname) or self.c.modules.get("myst_parser." + mname)
+            if m2 is None:
+                return None
+            mod = m2
+        node = mod.const_nodes.get(name) if "." not in name else None
+        if not isinstance(node, (ast.Tuple, ast.List)):
+            return None
+        out: list[str] = []
+        for e in node.elts:
+            de = dotted(e)
+            if not de:
+                return None
+            out.append(self.h.canonical(mod.resolve(de)))
         return out
 
     def caught(self, exc: str, classes: list[str]) -> bool:
@@ -1214,6 +1378,14 @@ class EscapeAnalysis:
                     add([B + "StopIteration"], "next() without default")
             elif n == "jinja2.Environment" :
                 pass
+        # consuming N characters of the option stream before the loop that validates those N characters has run:
+        # only validated characters are known to lie before the end sentinel (StreamBuffer.forward indexes the buffer)
+        if attr == "forward" and len(call.args) == 1 and isinstance(call.args[0], ast.Name) and isinstance(st, ast.stmt):
+            loop = _validation_loop_for(st, call.args[0].id)
+            if loop is not None:
+                blk_ = _block_of(st)
+                if blk_ is not None and loop in blk_ and blk_.index(st) < blk_.index(loop):
+                    add([B + "IndexError"], f"stream.forward({call.args[0].id}) before the {call.args[0].id} characters were validated: a sequence cut short by the end of the text runs past the sentinel")
         # Sphinx's env.relfn2path() ends in Path.resolve(): ValueError('embedded null byte') for a file name with NUL
         if attr == "relfn2path" and call.args and self.relfn2path_resolves():
             how = self._nul_status(call.args[0], call, fi)
